@@ -195,11 +195,12 @@ func (dec *Decoder) decodeInterface(tag byte, p *interface{}) {
 			dec.ReadStruct(interfaceType)
 			next = dec.NextByte()
 		}
+		if dec.Error != nil {
+			return // see defaultDecode
+		}
 		dec.Decode(p, next)
 	case TagError:
-		var s string
-		dec.decodeString(stringType, dec.NextByte(), &s)
-		dec.Error = DecodeError(s)
+		dec.Error = DecodeError(dec.readErrorMessage())
 	default:
 		if dec.Error == nil {
 			dec.Error = DecodeError(fmt.Sprintf("hprose/io: invalid tag '%s'(0x%x)", string(tag), tag))
